@@ -8,6 +8,9 @@ from pathlib import Path
 
 VERIF = Path(__file__).resolve().parent.parent
 NOTES = {
+    "C03-r4change1": "missed at first: no rollback went onto a command the components REJECT right after an action others react to; per job and skill the skill is now used, used again (mostly rejected on cooldown), rolled back onto the rejected command and onto the one before it, and the run goes on",
+    "C05-r4change1": "missed at first: only the operation engine was driven; the actions of a plan are now also played on a SimulationRuntime (runtime.play / save / load) with checkpoints taken between any two actions -- the first before the first action -- and restored after further actions",
+    "C08-r4change2": "first reported without a failing input (the module-level cache is rejected by the effect checker): a sample of the harvested reducer calls, each followed by its twin (same name, description differing in one number), is replayed in two new interpreters in opposite orders (harness/c08_order.py) and every answer must agree",
     "C11-r3change2": "first reported without a failing input: the generated blocks now take the ends of the legal range of `ignored_defence` (0 and exactly 100) with their own probability",
     "C12-r3change2": "missed at first: linearity of get_damage was only evaluated at ordinary magnitudes; it is now also evaluated at multiples 10^3, 10^6, 10^9 and 10^-3 of damage% and hit count, and the model correspondence of get_damage takes totals of every magnitude",
     "C16-r3change1": "missed at first: the exclusion check read the replacement's level back from the environment under test; it now takes the CONFIGURED level from the configuration and the profile's raw name lists, and the providers' glue is inside the model (Props/C16_Provider.lean, §9.9) with a correspondence through both providers",
